@@ -238,6 +238,19 @@ func makeItem(tag string, r *vrng, invalid string) *api.Item {
 	case 1:
 		it.Flag.SetToNull()
 	}
+	// nullable members with a default: absent arrives as the default, null arrives as null, a value as itself
+	switch r.intn(3) {
+	case 0:
+		it.Alias.SetTo("al-" + tag)
+	case 1:
+		it.Alias.SetToNull()
+	}
+	switch r.intn(3) {
+	case 0:
+		it.Retries.SetTo(r.intn(100))
+	case 1:
+		it.Retries.SetToNull()
+	}
 	if r.coin() {
 		it.Data = payload(tag, 1+r.intn(300))
 	}
@@ -302,6 +315,12 @@ func itemWithDefaults(in *api.Item) api.Item {
 	}
 	if !it.Kind.Set {
 		it.Kind.SetTo(api.ItemKindA)
+	}
+	if !it.Alias.Set {
+		it.Alias.SetTo("anon")
+	}
+	if !it.Retries.Set {
+		it.Retries.SetTo(3)
 	}
 	if it.Sub.Set && !it.Sub.Value.Label.Set {
 		it.Sub.Value.Label.SetTo("lbl")
@@ -1192,6 +1211,16 @@ func doCall(ctx context.Context, c *api.Client, rec *CallRecord) {
 		}
 		if r.coin() {
 			params.Dur.SetTo(time.Duration(1+r.intn(100000)) * time.Second)
+		}
+		if r.coin() {
+			params.Obj.SetTo(api.Pair{Role: api.NewOptString("ro-" + tag), Name: api.NewOptString("na " + tag)})
+		}
+		if r.coin() {
+			p := api.Pair{Role: api.NewOptString("hr-" + tag)}
+			if r.coin() {
+				p.Name.SetTo("hn-" + tag)
+			}
+			params.XObj.SetTo(p)
 		}
 		if r.coin() {
 			params.Lvl.SetTo(int8(r.intn(256) - 128))
